@@ -46,7 +46,7 @@ RULE = ("exhaustive histories up to length 4/5 over {new Emp, new Mgr, new Org, 
 
 
 def budget(tier: str) -> int:
-    return 4000 if tier == "quick" else 40000
+    return 4000 if tier == "quick" else 100000
 
 
 def _case(ops, tags, origin):
